@@ -51,7 +51,42 @@ static void op_classify(int nt, char **t) {
     if (ledger_live()) printf(" LEAK(%d)", ledger_live());
 }
 
+/* eapol <radiotap 0|1> <hex>: classify, then the four EAPOL routines on the classified frame */
+static void op_eapol(int nt, char **t) {
+    (void) nt;
+    int rt = (int) tok_ll(t[1]);
+    size_t n; unsigned char *b = hexbuf(t[2], &n);
+    struct libwifi_frame f; memset(&f, 0x5A, sizeof f);
+    int r;
+    LIB(r = libwifi_get_wifi_frame(&f, b, n, rt));
+    memset(b, 0xEE, n); __real_free(b);
+    if (r != 0) { printf("eapol cls=err"); LIB(libwifi_free_wifi_frame(&f)); return; }
+    int hs, msg, kdl, gr;
+    const char *ms;
+    LIB(hs = libwifi_check_wpa_handshake(&f));
+    LIB(msg = libwifi_check_wpa_message(&f));
+    LIB(ms = libwifi_get_wpa_message_string(&f));
+    LIB(kdl = libwifi_get_wpa_key_data_length(&f));
+    struct libwifi_wpa_auth_data d; memset(&d, 0x5A, sizeof d);
+    LIB(gr = libwifi_get_wpa_data(&f, &d));
+    printf("eapol hs=%s msg=%d,%s kdl=%s%d data=", hs < 0 ? "err" : "1", msg, ms, kdl < 0 ? "err" : "", kdl < 0 ? 0 : kdl);
+    if (gr != 0) printf("err");
+    else {
+        printf("%u,%u,%u,%u,%u,%u,%llu,", d.version, d.type, d.length, d.descriptor, d.key_info.information,
+               d.key_info.key_length, (unsigned long long) d.key_info.replay_counter);
+        out_hex(d.key_info.nonce, 32); putchar(','); out_hex(d.key_info.iv, 16); putchar(',');
+        out_hex(d.key_info.rsc, 8); putchar(','); out_hex(d.key_info.id, 8); putchar(','); out_hex(d.key_info.mic, 16);
+        printf(",%u,", d.key_info.key_data_length);
+        if (d.key_info.key_data_length) out_hex(d.key_info.key_data, d.key_info.key_data_length); else putchar('-');
+        if (d.key_info.key_data_length == 0 && d.key_info.key_data != NULL) printf(" KEYDATA-PTR");
+    }
+    LIB(libwifi_free_wpa_data(&d));
+    LIB(libwifi_free_wifi_frame(&f));
+    if (ledger_live()) printf(" LEAK(%d)", ledger_live());
+}
+
 const struct op ops_frame[] = {
+    {"eapol", op_eapol},
     {"classify", op_classify},
     {NULL, NULL},
 };
